@@ -436,7 +436,8 @@ class MemoryCache(CacheMixin):
 
     def store_metadata(self, metadata):
         key = metadata["query"]
-        if key not in self.storage:
+        if key not in self.storage or key not in self.metadata_only:
+            # metadata written on its own never decorates the data of a finished entry
             self.storage[key] = State()
             self.metadata_only.add(key)
         self.storage[key].metadata = deepcopy(metadata)
